@@ -206,7 +206,7 @@ func forEachCase(u *unit, fn func(seq int, sc *scope, fr framing) bool) error {
 	seq := 0
 	for di := range dbs {
 		db := &dbs[di]
-		if u.level == 0 && !(strings.HasPrefix(db.name, "odd_") || db.name == "big" || db.name == "id_all" || di%7 == 3) {
+		if u.level == 0 && !(strings.HasPrefix(db.name, "odd_") || db.name == "big" || db.name == "id_all" || strings.HasPrefix(db.name, "val_") || di%7 == 3) {
 			continue
 		}
 		if quickEmpties && u.level == 2 && len(u.pipe.stages) > 1 && dbEntries(db) == 4 {
